@@ -15,6 +15,18 @@ def check(tier, seed):
     W.regenerate(ck)
     proof_ok = V.coq_stage(ck, PROP, TARGETS)
     walker_check(ck, PROP, tier, seed, "sa", ("SA",), proof_ok, "visitSearchAttributes")
+    # the method filter and the direction of both translators, through the real TranslationInterceptor
+    cases = 2 if tier == "quick" else 12
+    err, diffs, stats = W.run("icpt", seed, cases)
+    mine = [d for d in diffs if d.split()[0] == "ICPT"] if not err else []
+    ck.obligation("real TranslationInterceptor (namespace + search-attribute translators) = reference on %d unary calls of both services: keys renamed on AdminService calls only, "
+                  "requests with the mapping and responses with its inverse" % stats.get("icpt_calls", 0), not err and not mine and stats.get("icpt_workflow", 0) > 0,
+                  err or ("%d differ; first: %s" % (len(mine), mine[0][:300] if mine else "")))
+    ck.cov.setdefault("walker_stats", {})["icpt"] = stats
+    if mine and not ck.violations:
+        d = mine[0]
+        ck.violation({"kind": "walker", "mode": "icpt", "seed": seed, "cases": cases, "only": d.split()[1], "line": d, "all": mine[:15],
+                      "verdict": "the interceptor translated (or failed to translate) search-attribute keys where the property says otherwise"}, d[:400])
     return ck.finish(rule="as C12 with search-attribute key mappings (simple, chain, swap, non-matching) and key pools that include mapped keys, prefixes and unmapped keys; history-event blobs included; "
                           "non-trivial = messages in which a key was renamed")
 
